@@ -1,32 +1,31 @@
-(* C05 — the abstract keep-alive semantics simulates the automaton.
+(* C05 — the abstract keep-alive semantics simulates the automaton, and the environment conditions that follow from the
+   automaton itself are derived.
    The automaton carries the abstract state as ghost fields (kabs, kenv, ktmo) updated in lockstep by k_event / k_reset:
    Tick at every timer1 callback of a registered device, Sent at every accepted espconn_sent (last_sent := uptime),
    Resp at every received call (last_response := uptime); a new episode starts when the registration is accepted or a
-   timeout is granted.  KSim: whenever the device is registered, the environment conditions kenv_ok held for every event
-   of the episode and 10 <= T <= 50, the ghost state satisfies the keep-alive invariant KInv and agrees with the real
-   last_sent / last_response.  Proved for every fuel-free reachable state. *)
+   timeout is granted.  kenv accumulates only the EXTERNAL conditions kext_ok (H_link, H_prompt, H_slot) and H_fresh; the
+   derived ones (kder_ok: monotone time, 32-bit seconds, a timer1 tick at least every other second) are proved here from
+   the timing invariants of C04/Timing.v under lateness J < 1 s.  KSim is proved for every fuel-free reachable state. *)
 From Coq Require Import List ZArith Lia Bool.
 Import ListNotations.
 From V Require Import Base.U32 Base.Bytes Base.Iface Gen.ProtoConsts Gen.C04Consts C04.Keepalive C04.Model C04.Proofs C04.Timing C05.Model C05.Proofs.
 Local Open Scope Z_scope.
 
-Record kview := mkkv { kv_tmo : Z; kv_to : Z; kv_reg : Z; kv_rpc : bool; kv_env : bool; kv_abs : kst; kv_ls : Z; kv_lr : Z }.
+Record kview := mkkv { kv_tmo : Z; kv_to : Z; kv_reg : Z; kv_rpc : bool; kv_env : bool; kv_abs : kst; kv_ls : Z; kv_lr : Z;
+                       kv_now : Z; kv_boot : Z; kv_cyc : Z; kv_t1 : timer }.
 Definition has_rpc (s : st) : bool := match srpc s with Some _ => true | None => false end.
-Definition kview_of (s : st) : kview := mkkv (ktmo s) (actto s) (registered s) (has_rpc s) (kenv s) (kabs s) (lastsent s) (lastresp s).
-
-Definition KSimV (v : kview) : Prop :=
-  kv_tmo v = kv_to v /\
-  (kv_reg v = 1 -> kv_rpc v = true -> kv_env v = true -> 10 <= kv_to v <= 50 ->
-   KInv (kv_to v) (kv_abs v) /\ k_ls (kv_abs v) = kv_ls v /\ k_lr (kv_abs v) = kv_lr v).
-Definition KSim (s : st) : Prop := KSimV (kview_of s).
-Lemma KSim_view s s' : kview_of s' = kview_of s -> KSim s -> KSim s'.
-Proof. unfold KSim. intros ->. auto. Qed.
+Definition kview_of (s : st) : kview :=
+  mkkv (ktmo s) (actto s) (registered s) (has_rpc s) (kenv s) (kabs s) (lastsent s) (lastresp s) (now s) (boot s) (cycles0 s) (t_timer1 s).
+Lemma kview_fields s s' : kview_of s' = kview_of s ->
+  ktmo s' = ktmo s /\ actto s' = actto s /\ registered s' = registered s /\ has_rpc s' = has_rpc s /\ kenv s' = kenv s /\ kabs s' = kabs s /\
+  lastsent s' = lastsent s /\ lastresp s' = lastresp s /\ now s' = now s /\ boot s' = boot s /\ cycles0 s' = cycles0 s /\ t_timer1 s' = t_timer1 s.
+Proof. unfold kview_of. intros H. inversion H. repeat split; auto. Qed.
 
 (* functions that do not touch the view *)
 Lemma kv_emit k a s : kview_of (emit k a s) = kview_of s. Proof. reflexivity. Qed.
-Lemma kv_set_tm i v s : kview_of (set_tm i v s) = kview_of s. Proof. destruct i; reflexivity. Qed.
-Lemma kv_arm i ms r s : kview_of (arm i ms r s) = kview_of s. Proof. unfold arm. rewrite kv_set_tm. reflexivity. Qed.
-Lemma kv_disarm i s : kview_of (disarm i s) = kview_of s. Proof. unfold disarm. apply kv_set_tm. Qed.
+Lemma kv_set_tm i v s : i <> T_timer1 -> kview_of (set_tm i v s) = kview_of s. Proof. intros H. destruct i; try reflexivity. contradiction. Qed.
+Lemma kv_arm i ms r s : i <> T_timer1 -> kview_of (arm i ms r s) = kview_of s. Proof. intros H. unfold arm. rewrite kv_set_tm by auto. reflexivity. Qed.
+Lemma kv_disarm i s : i <> T_timer1 -> kview_of (disarm i s) = kview_of s. Proof. intros H. unfold disarm. apply kv_set_tm; auto. Qed.
 Lemma kv_srv_on_frame c s : kview_of (srv_on_frame c s) = kview_of s.
 Proof. unfold srv_on_frame. destruct (_ && _); [|reflexivity]. match goal with |- context [if ?c then _ else _] => destruct c end; reflexivity. Qed.
 Lemma kv_decode k : forall s, kview_of (decode k s) = kview_of s.
@@ -43,7 +42,7 @@ Proof. unfold append_buffer. destruct (0 <? len b); [destruct (_ <? _)|]; reflex
 Lemma kv_gpio_disc s : kview_of (gpio_state_disconnected s) = kview_of s. Proof. unfold gpio_state_disconnected. destruct (_ =? _); reflexivity. Qed.
 Lemma kv_gpio_ip s : kview_of (gpio_state_ipreceived s) = kview_of s. Proof. unfold gpio_state_ipreceived. destruct (_ =? _); reflexivity. Qed.
 Lemma kv_gpio_conn s : kview_of (gpio_state_connected s) = kview_of s.
-Proof. unfold gpio_state_connected. destruct (_ =? _); [reflexivity|]. rewrite kv_arm. reflexivity. Qed.
+Proof. unfold gpio_state_connected. destruct (_ =? _); [reflexivity|]. rewrite kv_arm by discriminate. reflexivity. Qed.
 Lemma kv_sdk_disconnect s : kview_of (sdk_disconnect s) = kview_of s.
 Proof.
   unfold sdk_disconnect. destruct (_ =? _).
@@ -70,7 +69,7 @@ Proof.
 Qed.
 Lemma kv_wifi_station_connect s : kview_of (wifi_station_connect s) = kview_of s.
 Proof.
-  unfold wifi_station_connect. rewrite kv_arm, kv_disarm.
+  unfold wifi_station_connect. rewrite kv_arm, kv_disarm by discriminate.
   set (s2 := set_wstatus STATION_CONNECTING_ (emit O_WIFISTART [now (gpio_state_disconnected s)] (gpio_state_disconnected s))).
   assert (H2 : kview_of s2 = kview_of s) by (subst s2; change (kview_of (gpio_state_disconnected s) = kview_of s); apply kv_gpio_disc).
   generalize dependent s2. intros s2 H2. destruct (_ =? _); [rewrite kv_wifi_check_status|]; exact H2.
@@ -79,59 +78,151 @@ Lemma kv_restart s : kview_of (restart s) = kview_of s. Proof. reflexivity. Qed.
 Lemma kv_async_call c pay s : kview_of (async_call c pay s) = kview_of s.
 Proof. unfold async_call. destruct (srpc s) eqn:E; [destruct (_ <? _)|]; unfold kview_of, has_rpc; cbn; rewrite ?E; reflexivity. Qed.
 Lemma kv_stop_with_delay s : kview_of (stop_with_delay s) = kview_of s.
-Proof. unfold stop_with_delay. rewrite kv_arm. unfold mark_refused. destruct (srpc s) eqn:E; unfold kview_of, has_rpc; cbn; rewrite ?E; reflexivity. Qed.
+Proof. unfold stop_with_delay. rewrite kv_arm by discriminate. unfold mark_refused. destruct (srpc s) eqn:E; unfold kview_of, has_rpc; cbn; rewrite ?E; reflexivity. Qed.
 Lemma kv_local_call api s : kview_of (local_call api s) = kview_of s.
 Proof.
   unfold local_call. destruct (api <? 0); [reflexivity|]. destruct (site_of_api api); [|reflexivity].
   destruct (if _ =? 0 then _ else _); [apply kv_async_call|reflexivity].
 Qed.
 
-(* ---------- the three abstract events and the episode reset ---------- *)
-Lemma ksim_event (e : kev) (s s' : st) :
-  kview_of s' = mkkv (ktmo s) (actto s) (registered s) (has_rpc s) (kenv s && kenv_ok (ktmo s) (kabs s) e) (kstep (ktmo s) (kabs s) e)
-                     (match e with Sent u => u | _ => lastsent s end) (match e with Resp u => u | _ => lastresp s end) ->
-  KSim s -> KSim s'.
+
+(* ---------- arithmetic of uptime seconds ---------- *)
+Lemma usec_adv_le s x d : 0 <= d -> usec_at s (x + d) <= usec_at s x + d.
 Proof.
-  intros V [E H]. unfold KSim. rewrite V. cbn in E, H. split; [exact E|]. cbn.
-  intros R P Env HT. apply andb_true_iff in Env. destruct Env as [Env1 Env2].
-  destruct (H R P Env1 HT) as [KI [L1 L2]]. rewrite E in *.
-  split; [apply kstep_inv; auto|]. destruct e; cbn; auto.
-  (* Tick keeps both readings *)
-  unfold kstep. destruct (t1_decide _ _ _ _); [| destruct slot|]; cbn; auto.
+  intros Hd. rewrite !usec_closed. pose proof (Z.div_le_mono (boot s + x) (boot s + (x + d)) 4294967296 ltac:(lia) ltac:(lia)). lia.
 Qed.
-Lemma ksim_sent u s : KSim s -> KSim (k_event (Sent u) (set_lastsent u s)).
-Proof. apply (ksim_event (Sent u)). reflexivity. Qed.
-Lemma ksim_resp u n s : KSim s -> KSim (k_event (Resp u) (set_nresp n (set_lastresp u s))).
-Proof. apply (ksim_event (Resp u)). reflexivity. Qed.
-Lemma ksim_tick u slot s : KSim s -> KSim (k_event (Tick u slot) s).
-Proof. apply (ksim_event (Tick u slot)). reflexivity. Qed.
-Lemma ksim_reset s : lastresp s = uptime s -> KSim (k_reset s).
+Lemma Upt_add_le s x d k : 0 <= d <= k * 1000000 -> Upt s (x + d) <= Upt s x + k.
 Proof.
-  intros L. unfold KSim, KSimV, k_reset, kview_of. stsimp. cbn [kv_tmo kv_to kv_reg kv_rpc kv_env kv_abs kv_ls kv_lr].
-  split; [reflexivity|].
-  intros R P Env HT. apply andb_true_iff in Env. destruct Env as [Env E4]. apply andb_true_iff in Env. destruct Env as [Env E3].
-  apply andb_true_iff in Env. destruct Env as [E1 E2].
-  apply Z.leb_le in E1, E2, E4. apply Z.ltb_lt in E3.
-  split; [apply kinit_inv; lia|]. split; [reflexivity|]. cbn [kinit k_lr]. auto.
+  intros Hd. rewrite !Upt_eq. pose proof (usec_adv_le s x d ltac:(lia)).
+  rewrite <- Z.div_add by lia. apply Z.div_le_mono; lia.
 Qed.
-Lemma ksim_unregistered s s' : ktmo s' = ktmo s -> actto s' = actto s -> registered s' <> 1 \/ has_rpc s' = false -> KSim s -> KSim s'.
+
+Section Sim.
+Variable J : Z.
+Hypothesis HJ : 0 <= J < 1000000.          (* H_lateness: timer callbacks are late by less than one second *)
+
+(* timer1 of a device that has an SRPC instance: armed, not overdue by more than J, at most one period ahead *)
+Definition KB (s : st) : Prop :=
+  0 <= now s /\ 0 <= lastsent s /\ (nowrap s -> lastsent s <= Upt s (now s)) /\
+  (has_rpc s = true -> armed (t_timer1 s) = true /\ now s <= due (t_timer1 s) + J /\ due (t_timer1 s) <= now s + T1_US).
+(* f2 = false only between the re-arming of timer1 and its callback *)
+Definition KReg (f2 : bool) (s : st) : Prop :=
+  registered s = 1 -> has_rpc s = true -> nowrap s -> KA_MIN <= actto s <= 4294966000 ->
+  let k := kabs s in
+  k_lt k <= k_cur k /\ k_cur k <= Upt s (now s) /\ Upt s (now s) <= k_lt k + 2 /\
+  (f2 = true -> Upt s (due (t_timer1 s) - T1_US) <= k_lt k) /\
+  (kenv s = true -> KInv (actto s) k /\ k_ls k = lastsent s /\ k_lr k = lastresp s).
+Definition KSim (f2 : bool) (s : st) : Prop := ktmo s = actto s /\ KB s /\ KReg f2 s.
+
+Lemma nowrap_view s s' : now s' = now s -> boot s' = boot s -> cycles0 s' = cycles0 s -> (nowrap s' <-> nowrap s).
+Proof. intros A B C. unfold nowrap, nowrap_at, Upt, usec_at. rewrite A, B, C. tauto. Qed.
+Lemma KSim_view f2 s s' : kview_of s' = kview_of s -> KSim f2 s -> KSim f2 s'.
 Proof.
-  intros A B C [E _]. unfold KSim, KSimV, kview_of in *. cbn [kv_tmo kv_to kv_reg kv_rpc kv_env kv_abs kv_ls kv_lr] in *.
-  split; [rewrite A, B; exact E|]. intros R P. destruct C as [C|C]; [contradiction|rewrite C in P; discriminate P].
+  intros V. destruct (kview_fields s s' V) as [a1 [a2 [a3 [a4 [a5 [a6 [a7 [a8 [a9 [a10 [a11 a12]]]]]]]]]]].
+  unfold KSim, KB, KReg, nowrap, nowrap_at, Upt, usec_at. rewrite a1, a2, a3, a4, a5, a6, a7, a8, a9, a10, a11, a12. auto.
+Qed.
+Lemma KSim_weaken s : KSim true s -> KSim false s.
+Proof. intros [A [B C]]. split; auto. split; auto. intros R P NW HT. destruct (C R P NW HT) as [c1 [c2 [c3 [c4 c5]]]]. split; [exact c1|]. split; [exact c2|]. split; [exact c3|]. split; [intros; discriminate|exact c5]. Qed.
+Lemma KSim_unreg f2 f2' s : KSim f2 s -> (registered s <> 1 \/ has_rpc s = false \/ ~ (KA_MIN <= actto s <= 4294966000)) -> KSim f2' s.
+Proof. intros [A [B C]] H. split; auto. split; auto. intros R P NW HT. exfalso. destruct H as [H|[H|H]]; [auto|congruence|auto]. Qed.
+
+(* ---------- the three abstract events ---------- *)
+(* e is logged at the current uptime second; s' differs from s by the ghost update and by the real write of last_sent / last_response *)
+Lemma ksim_event f2 (e : kev) (s s' : st) :
+  ktime e = uptime s ->
+  kview_of s' = mkkv (ktmo s) (actto s) (registered s) (has_rpc s) (kenv s && kext_ok (ktmo s) (kabs s) e) (kstep (ktmo s) (kabs s) e)
+                     (match e with Sent u => u | _ => lastsent s end) (match e with Resp u => u | _ => lastresp s end)
+                     (now s) (boot s) (cycles0 s) (t_timer1 s) ->
+  KSim f2 s -> KSim (match e with Tick _ _ => true | _ => f2 end) s'.
+Proof.
+  intros Ht V [E [[B1 [B2 [B3 B4]]] C]].
+  assert (F : ktmo s' = ktmo s /\ actto s' = actto s /\ registered s' = registered s /\ has_rpc s' = has_rpc s /\
+              kenv s' = (kenv s && kext_ok (ktmo s) (kabs s) e) /\ kabs s' = kstep (ktmo s) (kabs s) e /\
+              lastsent s' = (match e with Sent u => u | _ => lastsent s end) /\ lastresp s' = (match e with Resp u => u | _ => lastresp s end) /\
+              now s' = now s /\ boot s' = boot s /\ cycles0 s' = cycles0 s /\ t_timer1 s' = t_timer1 s).
+  { unfold kview_of in V. inversion V. repeat split; auto. }
+  destruct F as [a1 [a2 [a3 [a4 [a5 [a6 [a7 [a8 [a9 [a10 [a11 a12]]]]]]]]]]].
+  pose proof (nowrap_view s s' a9 a10 a11) as NWV.
+  assert (UF : forall t, Upt s' t = Upt s t) by (intros; apply Upt_frame; auto).
+  split; [congruence|]. split.
+  - unfold KB. rewrite a9, a4, a12, UF. split; [auto|]. split; [|split; [|exact B4]].
+    + rewrite a7. destruct e; auto. cbn [ktime] in Ht. rewrite Ht. apply uptime_nonneg.
+    + intros NW. apply NWV in NW. rewrite a7. destruct e; auto. cbn [ktime] in Ht. rewrite Ht, (uptime_nowrap s NW B1). lia.
+  - intros R P NW HT. rewrite a3 in R. rewrite a4 in P. apply NWV in NW. rewrite a2 in HT.
+    destruct (C R P NW HT) as [c1 [c2 [c3 [c4 c5]]]]. destruct (B4 P) as [t1 [t2 t3]].
+    pose proof (uptime_nowrap s NW B1) as UU. destruct NW as [_ [_ NWb]].
+    assert (KD : kder_ok (kabs s) e = true).
+    { unfold kder_ok. rewrite Ht, UU. repeat (apply andb_true_iff; split); [apply Z.leb_le|apply Z.ltb_lt|apply Z.leb_le]; auto. }
+    cbn zeta. rewrite a6, a9, a12, a2, a5, a7, a8, !UF, E.
+    assert (KT : k_cur (kstep (actto s) (kabs s) e) = uptime s /\ k_lt (kstep (actto s) (kabs s) e) = (match e with Tick _ _ => uptime s | _ => k_lt (kabs s) end)).
+    { rewrite <- Ht. unfold kstep. destruct e as [u sl|u|u]; cbn [ktime].
+      - destruct (t1_decide _ _ _ _); [|destruct sl|]; cbn; split; auto.
+      - cbn. split; auto.
+      - cbn. split; auto. }
+    destruct KT as [K1 K2]. rewrite K1, K2, UU.
+    split; [destruct e; lia|]. split; [lia|].
+    split; [destruct e; lia|].
+    split.
+    + destruct e; auto. intros _. apply Upt_mono. lia.
+    + intros Env. apply andb_true_iff in Env. destruct Env as [Env1 Env2]. destruct (c5 Env1) as [KI [L1 L2]].
+      split; [apply kstep_inv; auto; unfold kenv_ok; rewrite KD; exact Env2|].
+      destruct e as [u sl|u|u]; cbn [kstep].
+      * destruct (t1_decide _ _ _ _); [|destruct sl|]; cbn; auto.
+      * cbn. auto.
+      * cbn. auto.
+Qed.
+
+Lemma KSim_any f2 s : KSim true s -> KSim f2 s.
+Proof. destruct f2; auto. apply KSim_weaken. Qed.
+Lemma uptime_view s s' : kview_of s' = kview_of s -> uptime s' = uptime s.
+Proof.
+  intros V. destruct (kview_fields s s' V) as [_ [_ [_ [_ [_ [_ [_ [_ [a9 [a10 [a11 _]]]]]]]]]]].
+  unfold uptime, uptime_usec. rewrite a9, a10, a11. reflexivity.
+Qed.
+
+Lemma ksim_sent f2 s0 s : kview_of s = kview_of s0 -> KSim f2 s0 -> KSim f2 (k_event (Sent (uptime s0)) (set_lastsent (uptime s0) s)).
+Proof.
+  intros V K. assert (K' : KSim f2 s) by (eapply KSim_view; eauto).
+  apply (ksim_event f2 (Sent (uptime s0)) s); auto. cbn [ktime]. symmetry. apply uptime_view; auto.
+Qed.
+Lemma ksim_resp f2 n s : KSim f2 s -> KSim f2 (k_event (Resp (uptime s)) (set_nresp n (set_lastresp (uptime s) s))).
+Proof. apply (ksim_event f2 (Resp (uptime s))); reflexivity. Qed.
+Lemma ksim_tick f2 slot s : KSim f2 s -> KSim true (k_event (Tick (uptime s) slot) s).
+Proof. apply (ksim_event f2 (Tick (uptime s) slot)); reflexivity. Qed.
+
+(* a new episode: needs only the timer / clock facts *)
+Lemma ksim_reset f2 s : KB s -> lastresp s = uptime s -> KSim f2 (k_reset s).
+Proof.
+  intros [B1 [B2 [B3 B4]]] L. apply KSim_any.
+  assert (F : ktmo (k_reset s) = actto s /\ actto (k_reset s) = actto s /\ registered (k_reset s) = registered s /\ has_rpc (k_reset s) = has_rpc s /\
+              kenv (k_reset s) = (uptime s - lastsent s <=? actto s - 3) /\ kabs (k_reset s) = kinit (uptime s) (lastsent s) /\
+              lastsent (k_reset s) = lastsent s /\ lastresp (k_reset s) = lastresp s /\
+              now (k_reset s) = now s /\ boot (k_reset s) = boot s /\ cycles0 (k_reset s) = cycles0 s /\ t_timer1 (k_reset s) = t_timer1 s)
+    by (repeat split; reflexivity).
+  generalize dependent (k_reset s). intros s' [a1 [a2 [a3 [a4 [a5 [a6 [a7 [a8 [a9 [a10 [a11 a12]]]]]]]]]]].
+  pose proof (nowrap_view s s' a9 a10 a11) as NWV.
+  assert (UF : forall t, Upt s' t = Upt s t) by (intros; apply Upt_frame; auto).
+  split; [congruence|]. split.
+  - unfold KB. rewrite a9, a4, a12, a7, UF. split; [auto|]. split; [auto|]. split; [|exact B4]. intros NW. apply B3, NWV; auto.
+  - intros R P NW HT. rewrite a4 in P. apply NWV in NW. rewrite a2 in HT. destruct (B4 P) as [t1 [t2 t3]].
+    pose proof (uptime_nowrap s NW B1) as UU. pose proof (B3 NW) as LS. destruct NW as [_ [_ NWb]].
+    cbn zeta. rewrite a6, a9, a12, a2, a5, a7, a8, !UF. cbn [kinit k_lt k_cur k_ls k_lr]. rewrite UU.
+    split; [lia|]. split; [lia|]. split; [lia|]. split; [intros _; apply Upt_mono; lia|].
+    intros Env. apply Z.leb_le in Env. split; [apply kinit_inv; lia|]. split; [reflexivity|]. rewrite L. auto.
 Qed.
 
 (* ---------- composite functions ---------- *)
-Lemma ksim_data_write b s : KSim s -> KSim (data_write b s).
+Lemma ksim_data_write f2 b s : KSim f2 s -> KSim f2 (data_write b s).
 Proof.
   intros K. unfold data_write.
-  assert (K1 : KSim (if 0 <? len (espbuf s) then
+  assert (K1 : KSim f2 (if 0 <? len (espbuf s) then
                        let '(r, s') := sdk_sent s in
                        if r =? 0 then k_event (Sent (uptime s')) (set_lastsent (uptime s') (wire_accept (espbuf s') (set_espbuf [] s'))) else s'
                      else s)).
   { destruct (0 <? len (espbuf s)); auto.
     pose proof (kv_sdk_sent s) as Hs. destruct (sdk_sent s) as [r s'] eqn:E. cbn [snd] in Hs.
-    assert (K' : KSim s') by (eapply KSim_view; eauto).
-    destruct (r =? 0); auto. apply ksim_sent. eapply KSim_view; [|exact K']. rewrite kv_wire_accept. reflexivity. }
+    assert (K' : KSim f2 s') by (eapply KSim_view; eauto).
+    destruct (r =? 0); auto. apply ksim_sent; auto. rewrite kv_wire_accept. reflexivity. }
   generalize dependent (if 0 <? len (espbuf s) then
                        let '(r, s') := sdk_sent s in
                        if r =? 0 then k_event (Sent (uptime s')) (set_lastsent (uptime s') (wire_accept (espbuf s') (set_espbuf [] s'))) else s'
@@ -139,79 +230,90 @@ Proof.
   destruct (0 <? len (espbuf s1)); [eapply KSim_view; [apply kv_append_buffer|auto]|].
   destruct (0 <? len b); auto.
   pose proof (kv_sdk_sent s1) as Hs. destruct (sdk_sent s1) as [r s2] eqn:E. cbn [snd] in Hs.
-  assert (K2 : KSim s2) by (eapply KSim_view; eauto).
+  assert (K2 : KSim f2 s2) by (eapply KSim_view; eauto).
   destruct (_ || _); [eapply KSim_view; [apply kv_append_buffer|auto]|].
-  destruct (r =? 0); auto. apply ksim_sent. eapply KSim_view; [apply kv_wire_accept|auto].
+  destruct (r =? 0); auto. apply ksim_sent; auto. apply kv_wire_accept.
 Qed.
 Lemma kv_set_rpc_some s p p' : srpc s = Some p -> kview_of (set_srpc (Some p') s) = kview_of s.
 Proof. intros E. unfold kview_of, has_rpc. cbn. rewrite E. reflexivity. Qed.
-Lemma ksim_srpc_out s : KSim s -> KSim (srpc_out s).
+Lemma ksim_srpc_out f2 s : KSim f2 s -> KSim f2 (srpc_out s).
 Proof.
   intros K. unfold srpc_out. destruct (srpc s) as [p|] eqn:E; auto.
   destruct (match oq p with f :: rest => (rest, obuf p ++ encode f) | [] => ([], obuf p) end) as [q ob].
   set (n := if OUT_CHUNK <? len ob then OUT_CHUNK else len ob).
-  assert (K1 : KSim (set_srpc (Some (mkrpc (sid p) (rr_last p) q (drop n ob) (ibuf p) (hist p) (got_ok p) (refused_at p) (created_at p))) s))
+  assert (K1 : KSim f2 (set_srpc (Some (mkrpc (sid p) (rr_last p) q (drop n ob) (ibuf p) (hist p) (got_ok p) (refused_at p) (created_at p))) s))
     by (eapply KSim_view; [apply (kv_set_rpc_some s p); auto|auto]).
   destruct (0 <? n); auto. apply ksim_data_write; auto.
 Qed.
-Lemma uptime_same_view_setters s a b : uptime (set_registered a (set_actto b s)) = uptime s. Proof. reflexivity. Qed.
-Lemma ksim_on_register_result code tmo s : KSim s -> lastresp s = uptime s -> KSim (on_register_result code tmo s).
+Lemma KB_of f2 s : KSim f2 s -> KB s. Proof. intros [_ [B _]]; exact B. Qed.
+Lemma KB_view s s' : kview_of s' = kview_of s -> KB s -> KB s'.
+Proof.
+  intros V. destruct (kview_fields s s' V) as [a1 [a2 [a3 [a4 [a5 [a6 [a7 [a8 [a9 [a10 [a11 a12]]]]]]]]]]].
+  unfold KB, nowrap, nowrap_at, Upt, usec_at. rewrite a4, a7, a9, a10, a11, a12. auto.
+Qed.
+Lemma KB_fields s s' : has_rpc s' = has_rpc s -> lastsent s' = lastsent s -> now s' = now s -> boot s' = boot s -> cycles0 s' = cycles0 s ->
+  t_timer1 s' = t_timer1 s -> KB s -> KB s'.
+Proof. intros a4 a7 a9 a10 a11 a12. unfold KB, nowrap, nowrap_at, Upt, usec_at. rewrite a4, a7, a9, a10, a11, a12. auto. Qed.
+Lemma ksim_on_register_result f2 code tmo s : KSim f2 s -> lastresp s = uptime s -> KSim f2 (on_register_result code tmo s).
 Proof.
   intros K L. unfold on_register_result. destruct (code =? RESULTCODE_TRUE); [|eapply KSim_view; [apply kv_stop_with_delay|auto]].
-  assert (K1 : KSim (k_reset (set_registered 1 (set_actto tmo s)))) by (apply ksim_reset; exact L).
+  assert (K1 : KSim f2 (k_reset (set_registered 1 (set_actto tmo s)))).
+  { apply ksim_reset; [|exact L]. apply (KB_fields s); try reflexivity. apply (KB_of _ _ K). }
   generalize dependent (k_reset (set_registered 1 (set_actto tmo s))). intros s1 K1.
-  assert (K2 : KSim (match srpc s1 with
+  assert (K2 : KSim f2 (match srpc s1 with
                      | Some p => set_srpc (Some (mkrpc (sid p) (rr_last p) (oq p) (obuf p) (ibuf p) (hist p) true (refused_at p) (created_at p))) s1
                      | None => s1 end))
     by (destruct (srpc s1) as [p|] eqn:E; auto; eapply KSim_view; [apply (kv_set_rpc_some s1 p); auto|auto]).
   generalize dependent (match srpc s1 with
                      | Some p => set_srpc (Some (mkrpc (sid p) (rr_last p) (oq p) (obuf p) (ibuf p) (hist p) true (refused_at p) (created_at p))) s1
                      | None => s1 end). intros s2 K2.
-  match goal with |- KSim (arm T_value ?m ?r (disarm T_value ?x)) => assert (V : kview_of (arm T_value m r (disarm T_value x)) = kview_of x) by (rewrite kv_arm, kv_disarm; reflexivity); eapply KSim_view; [exact V|]; clear V end.
+  match goal with |- KSim _ (arm T_value ?m ?r (disarm T_value ?x)) => assert (V : kview_of (arm T_value m r (disarm T_value x)) = kview_of x) by (rewrite kv_arm, kv_disarm by discriminate; reflexivity); eapply KSim_view; [exact V|]; clear V end.
   destruct (tmo =? ACTIVITY_TIMEOUT_DEFAULT); [|eapply KSim_view; [apply kv_async_call|]]; (eapply KSim_view; [apply kv_gpio_conn|auto]).
 Qed.
-Lemma ksim_handler f s : KSim s -> KSim (handler f s).
+Lemma ksim_handler f2 f s : KSim f2 s -> KSim f2 (handler f s).
 Proof.
   intros K. rewrite handler_eq.
-  assert (K0 : KSim (handler_pre s)) by (unfold handler_pre; apply ksim_resp; auto).
+  assert (K0 : KSim f2 (handler_pre s)) by (unfold handler_pre; apply ksim_resp; auto).
   assert (L0 : lastresp (handler_pre s) = uptime (handler_pre s)) by reflexivity.
   generalize dependent (handler_pre s). intros s0 K0 L0.
   unfold handler_body.
   destruct (_ && _); [apply ksim_on_register_result; auto|].
   destruct (_ && _); [eapply KSim_view; [apply kv_stop_with_delay|auto]|].
-  destruct (_ && _); [apply ksim_reset; exact L0|].
+  destruct (_ && _); [apply ksim_reset; [apply (KB_fields s0); try reflexivity; apply (KB_of _ _ K0)|exact L0]|].
   destruct (_ && _); [eapply KSim_view; [apply kv_async_call|auto]|auto].
 Qed.
-Lemma ksim_srpc_iterate s : KSim s -> KSim (srpc_iterate s).
+Lemma ksim_srpc_iterate f2 s : KSim f2 s -> KSim f2 (srpc_iterate s).
 Proof.
   intros K. unfold srpc_iterate. destruct (srpc s) as [p|] eqn:E; auto.
   set (n := if OUT_CHUNK <? len (recvbuf s) then OUT_CHUNK else len (recvbuf s)).
-  assert (K1 : KSim (set_recvbuf (drop n (recvbuf s)) s)) by (eapply KSim_view; [|exact K]; reflexivity).
+  assert (K1 : KSim f2 (set_recvbuf (drop n (recvbuf s)) s)) by (eapply KSim_view; [|exact K]; reflexivity).
   assert (E1 : srpc (set_recvbuf (drop n (recvbuf s)) s) = Some p) by exact E.
   generalize dependent (set_recvbuf (drop n (recvbuf s)) s). intros s1 K1 E1.
   destruct (if 0 <? n then _ else _) as [b|]; [|eapply KSim_view; [apply kv_restart|auto]].
   destruct (C01.Model.pop _ b []) as [[b' f] r].
-  assert (K2 : KSim (set_srpc (Some (with_ibuf b' p)) s1)) by (eapply KSim_view; [apply (kv_set_rpc_some s1 p); auto|auto]).
+  assert (K2 : KSim f2 (set_srpc (Some (with_ibuf b' p)) s1)) by (eapply KSim_view; [apply (kv_set_rpc_some s1 p); auto|auto]).
   destruct r; try (eapply KSim_view; [apply kv_restart|auto]).
   - apply ksim_srpc_out, ksim_handler; auto.
   - apply ksim_srpc_out; auto.
 Qed.
-Lemma ksim_devconn_iterate s : KSim s -> KSim (devconn_iterate s).
+Lemma ksim_devconn_iterate f2 s : KSim f2 s -> KSim f2 (devconn_iterate s).
 Proof.
   intros K. unfold devconn_iterate. destruct (srpc s) as [p|] eqn:E; auto.
   apply ksim_srpc_iterate, ksim_data_write.
-  destruct (registered s =? 0); auto.
-  eapply KSim_view; [apply kv_async_call|]. apply (ksim_unregistered s); auto. left. cbn. lia.
+  destruct (registered s =? 0) eqn:R0; auto.
+  eapply KSim_view; [apply kv_async_call|].
+  destruct K as [A [B C]]. split; [exact A|]. split; [apply (KB_fields s); try reflexivity; exact B|].
+  intros R; cbn in R; lia.
 Qed.
-Lemma ksim_recv_cb b s : KSim s -> KSim (recv_cb b s).
+Lemma ksim_recv_cb f2 b s : KSim f2 s -> KSim f2 (recv_cb b s).
 Proof.
   intros K. unfold recv_cb. destruct (len b =? 0); auto. destruct (_ <=? _); auto.
   apply ksim_devconn_iterate. eapply KSim_view; [|exact K]. reflexivity.
 Qed.
-Lemma ksim_srv_cb s : KSim s -> KSim (srv_cb s).
+Lemma ksim_srv_cb f2 s : KSim f2 s -> KSim f2 (srv_cb s).
 Proof.
   intros K. unfold srv_cb. destruct (srvq s) as [|d rest]; auto.
-  assert (K2 : KSim (match rest with
+  assert (K2 : KSim f2 (match rest with
                      | [] => set_srvq rest s
                      | d0 :: _ => set_t_srv (mktimer true (if d0 <? now (set_srvq rest s) then now (set_srvq rest s) else d0) (seqc (set_srvq rest s) + 1) 0)
                                     (set_seqc (seqc (set_srvq rest s) + 1) (set_srvq rest s)) end))
@@ -222,79 +324,177 @@ Proof.
                                     (set_seqc (seqc (set_srvq rest s) + 1) (set_srvq rest s)) end). intros s2 K2.
   destruct (link s2 =? L_LIVE); auto. apply ksim_recv_cb. eapply KSim_view; [apply kv_emit|auto].
 Qed.
-Lemma ksim_stop s : KSim s -> KSim (devconn_stop s).
+
+(* ---------- stop / start / reconnect: the SRPC instance is gone, timer1 is re-armed ---------- *)
+Definition koff_of (s : st) := (ktmo s, actto s, lastsent s, now s, boot s, cycles0 s, has_rpc s).
+Lemma koff_view s s' : kview_of s' = kview_of s -> koff_of s' = koff_of s.
 Proof.
-  intros K. unfold devconn_stop.
-  assert (K1 : KSim (set_registered 0 s)) by (apply (ksim_unregistered s); auto; left; cbn; lia).
-  assert (K2 : KSim (sdk_disconnect (disarm T_iter (disarm T_timer1 (set_started false (set_registered 0 s)))))).
-  { assert (V : kview_of (sdk_disconnect (disarm T_iter (disarm T_timer1 (set_started false (set_registered 0 s))))) = kview_of (set_registered 0 s))
-      by (rewrite kv_sdk_disconnect, kv_disarm, kv_disarm; reflexivity).
-    eapply KSim_view; [exact V|exact K1]. }
-  generalize dependent (sdk_disconnect (disarm T_iter (disarm T_timer1 (set_started false (set_registered 0 s))))). intros s3 K3.
-  assert (K4 : KSim (set_srpc None s3)) by (apply (ksim_unregistered s3); auto).
-  generalize dependent (set_srpc None s3). intros s4 K4.
-  destruct (clrstop s4); auto.
+  intros V. destruct (kview_fields s s' V) as [a1 [a2 [a3 [a4 [a5 [a6 [a7 [a8 [a9 [a10 [a11 a12]]]]]]]]]]].
+  unfold koff_of. rewrite a1, a2, a4, a7, a9, a10, a11. reflexivity.
 Qed.
-Lemma kv_devconn_start s : kview_of (devconn_start s) = kview_of s.
+Lemma koff_set_tm i v s : koff_of (set_tm i v s) = koff_of s. Proof. destruct i; reflexivity. Qed.
+Lemma koff_arm i ms r s : koff_of (arm i ms r s) = koff_of s. Proof. unfold arm. rewrite koff_set_tm. reflexivity. Qed.
+Lemma koff_disarm i s : koff_of (disarm i s) = koff_of s. Proof. unfold disarm. apply koff_set_tm. Qed.
+Lemma KSim_off f2 f2' s s' : koff_of s' = (ktmo s, actto s, lastsent s, now s, boot s, cycles0 s, false) -> KSim f2 s -> KSim f2' s'.
 Proof.
-  unfold devconn_start. rewrite kv_arm, !kv_disarm, kv_wifi_station_connect.
-  change (kview_of (set_started true ?x)) with (kview_of x). apply kv_gpio_ip.
+  intros V [E [[B1 [B2 [B3 _]]] _]]. unfold koff_of in V. inversion V as [[a1 a2 a7 a9 a10 a11 a4]].
+  split; [congruence|]. split.
+  - unfold KB, nowrap, nowrap_at, Upt, usec_at. rewrite a4, a7, a9, a10, a11. split; [auto|]. split; [auto|]. split; [exact B3|discriminate].
+  - intros _ P. rewrite a4 in P. discriminate P.
 Qed.
-Lemma ksim_reconnect s : KSim s -> KSim (devconn_reconnect s).
+Lemma koff_stop s : koff_of (devconn_stop s) = (ktmo s, actto s, lastsent s, now s, boot s, cycles0 s, false).
 Proof.
-  intros K. unfold devconn_reconnect. eapply KSim_view; [apply kv_devconn_start|]. apply ksim_stop.
-  eapply KSim_view; [|exact K]. reflexivity.
+  unfold devconn_stop.
+  assert (V : koff_of (sdk_disconnect (disarm T_iter (disarm T_timer1 (set_started false (set_registered 0 s))))) = koff_of s)
+    by (rewrite (koff_view _ _ (kv_sdk_disconnect _)), !koff_disarm; reflexivity).
+  generalize dependent (sdk_disconnect (disarm T_iter (disarm T_timer1 (set_started false (set_registered 0 s))))). intros s3 V.
+  unfold koff_of in V. inversion V as [[a1 a2 a7 a9 a10 a11 a4]].
+  destruct (clrstop _); unfold koff_of; cbn; rewrite a1, a2, a7, a9, a10, a11; reflexivity.
 Qed.
-Lemma ksim_timer1 s : KSim s -> KSim (timer1_cb s).
+Lemma koff_start s : koff_of (devconn_start s) = koff_of s.
 Proof.
-  intros K. unfold timer1_cb. destruct (is_registered s); auto.
-  set (slot := match srpc s with Some p => len (oq p) <? QUEUE_SIZE | None => false end).
-  assert (K1 : KSim (if 0 <? actto s then k_event (Tick (uptime s) slot) s else s)) by (destruct (0 <? actto s); [apply ksim_tick|]; auto).
-  generalize dependent (if 0 <? actto s then k_event (Tick (uptime s) slot) s else s). intros s1 K1.
-  destruct (t1_decide _ _ _ _); auto; [eapply KSim_view; [apply kv_async_call|auto]|apply ksim_reconnect; auto].
+  unfold devconn_start. rewrite koff_arm, !koff_disarm, (koff_view _ _ (kv_wifi_station_connect _)).
+  change (koff_of (set_started true ?x)) with (koff_of x). apply koff_view, kv_gpio_ip.
 Qed.
-Lemma ksim_watchdog s : KSim s -> KSim (watchdog_cb s).
+Lemma ksim_stop f2 f2' s : KSim f2 s -> KSim f2' (devconn_stop s).
+Proof. apply KSim_off, koff_stop. Qed.
+Lemma koff_reconnect s : koff_of (devconn_reconnect s) = (ktmo s, actto s, lastsent s, now s, boot s, cycles0 s, false).
+Proof. unfold devconn_reconnect. rewrite koff_start, koff_stop. reflexivity. Qed.
+Lemma ksim_reconnect f2 f2' s : KSim f2 s -> KSim f2' (devconn_reconnect s).
+Proof. apply KSim_off, koff_reconnect. Qed.
+
+(* ---------- timer callbacks ---------- *)
+Lemma has_rpc_iff s : has_rpc s = true <-> srpc s <> None.
+Proof. unfold has_rpc. destruct (srpc s); split; intros H; auto; try discriminate; try contradiction. Qed.
+(* the timer1 callback logs the Tick: afterwards the last tick is the one timer1 was re-armed from *)
+Lemma ksim_timer1 s : KSim false s -> KSim true (timer1_cb s).
+Proof.
+  intros K. unfold timer1_cb. destruct (is_registered s) eqn:HR.
+  - set (slot := match srpc s with Some p => len (oq p) <? QUEUE_SIZE | None => false end).
+    assert (K1 : KSim true (if 0 <? actto s then k_event (Tick (uptime s) slot) s else s)).
+    { destruct (0 <? actto s) eqn:E0; [eapply ksim_tick; eauto|]. apply Z.ltb_ge in E0. apply (KSim_unreg false); auto. right. right. lia. }
+    generalize dependent (if 0 <? actto s then k_event (Tick (uptime s) slot) s else s). intros s1 K1.
+    destruct (t1_decide _ _ _ _); auto; [eapply KSim_view; [apply kv_async_call|auto]|apply (ksim_reconnect true); auto].
+  - apply (KSim_unreg false); auto.
+    destruct (Z.eq_dec (registered s) 1) as [R|R]; [|left; exact R]. right. left.
+    destruct (has_rpc s) eqn:P; auto. exfalso. apply has_rpc_iff in P.
+    assert (is_registered s = true) by (apply is_registered_iff; auto). congruence.
+Qed.
+Lemma ksim_watchdog f2 s : KSim f2 s -> KSim f2 (watchdog_cb s).
 Proof.
   intros K. unfold watchdog_cb. destruct (_ <? _); auto. destruct (_ <? _); [eapply KSim_view; [apply kv_restart|auto]|].
-  destruct (_ && _); auto. apply ksim_reconnect; auto.
+  destruct (_ && _); auto. apply (ksim_reconnect f2); auto.
 Qed.
-Lemma ksim_callback i s : KSim s -> KSim (callback i s).
+Definition not_t1 (i : tid) : bool := match i with T_timer1 => false | _ => true end.
+Lemma ksim_callback i s : KSim (not_t1 i) s -> KSim true (callback i s).
 Proof.
-  intros K. destruct i; cbn [callback]; auto.
+  intros K. destruct i; cbn [callback]; cbn in K; auto.
   - eapply KSim_view; [apply kv_wifi_check_status|auto].
   - apply ksim_timer1; auto.
   - apply ksim_devconn_iterate; auto.
   - apply ksim_watchdog; auto.
-  - apply ksim_reconnect; auto.
-  - apply ksim_stop; auto.
+  - apply (ksim_reconnect true); auto.
+  - apply (ksim_stop true); auto.
   - apply ksim_srv_cb; auto.
 Qed.
-Lemma kv_prefire i s : kview_of (prefire i s) = kview_of s.
+
+(* ---------- the clock moves to the due time (+ lateness) of the timer that fires ---------- *)
+Definition kghost_of (s : st) := (ktmo s, kenv s, kabs s, lastsent s).
+Lemma kghost_prefire i s : kghost_of (prefire i s) = kghost_of s.
 Proof.
   unfold prefire, lateness. destruct (lat s); cbn [fst snd];
     repeat match goal with |- context [if ?c then _ else _] => destruct c end; destruct i; reflexivity.
 Qed.
-Lemma ksim_fire i s : KSim s -> KSim (fire i s).
-Proof. intros K. rewrite fire_eq. apply ksim_callback. eapply KSim_view; [apply kv_prefire|auto]. Qed.
-Lemma ksim_Advance fin s s' : Advance fin s s' -> KSim s -> KSim s'.
+Lemma T1_US_val : T1_US = 1000000. Proof. reflexivity. Qed.
+Lemma HJ0 : 0 <= J. Proof. lia. Qed.
+Lemma has_rpc_srpc s s' : srpc s' = srpc s -> has_rpc s' = has_rpc s. Proof. unfold has_rpc. intros ->. reflexivity. Qed.
+
+Lemma ksim_prefire i s fin : TR J s -> pick s fin = Some i -> KSim true s -> KSim (not_t1 i) (prefire i s).
 Proof.
-  induction 1; intros K; auto.
-  - destruct (now s <? fin); auto.
-  - apply IHAdvance, ksim_fire; auto.
+  intros R P [E [[B1 [B2 [B3 B4]]] C]].
+  destruct (core_tm_prefire J HJ0 i s fin T_timer1 R P (or_intror (or_introl eq_refl))) as [NN [Ta [Tb [Tc [Td Te]]]]].
+  destruct (prefire_fields J HJ0 i s (r_lat _ _ R)) as [[l [Lr N2]] [Rs [_ Gi]]].
+  destruct Rs as [rb [rc [_ [_ [_ [rs [rr [rl [ra _]]]]]]]]].
+  pose proof (kghost_prefire i s) as G. unfold kghost_of in G.
+  assert (g1 : ktmo (prefire i s) = ktmo s) by (apply (f_equal (fun x => fst (fst (fst x)))) in G; exact G).
+  assert (g2 : kenv (prefire i s) = kenv s) by (apply (f_equal (fun x => snd (fst (fst x)))) in G; exact G).
+  assert (g3 : kabs (prefire i s) = kabs s) by (apply (f_equal (fun x => snd (fst x))) in G; exact G).
+  assert (g4 : lastsent (prefire i s) = lastsent s) by (apply (f_equal snd) in G; exact G). clear G.
+  pose proof (r_t1p _ _ R) as Pt. cbn [get_tm] in *.
+  generalize dependent (prefire i s). intros s2 NN Ta Tb Tc Td Te N2 rb rc rs rr rl ra Gi g1 g2 g3 g4.
+  pose proof (has_rpc_srpc s s2 rs) as rp.
+  assert (UF : forall t, Upt s2 t = Upt s t) by (intros; apply Upt_frame; auto).
+  assert (NWL : nowrap s2 -> nowrap s) by (apply nowrap_later; auto).
+  pose proof T1_US_val as T1v.
+  split; [congruence|]. split.
+  - unfold KB. rewrite g4, rp, UF. split; [lia|]. split; [auto|]. split.
+    + intros NW. pose proof (B3 (NWL NW)). pose proof (Upt_mono s _ _ NN). lia.
+    + intros P1. destruct (B4 P1) as [t1 [t2 t3]]. specialize (Pt t1).
+      assert (A2 : armed (t_timer1 s2) = true) by (apply Td; auto; lia).
+      destruct (Tc A2) as [_ Pe]. split; [exact A2|]. split; [apply Ta; auto|]. rewrite <- Pt, <- Pe. apply Tb; auto. lia.
+  - intros R1 P1 NW2 HT. rewrite rr in R1. rewrite rp in P1. rewrite ra in HT. pose proof (NWL NW2) as NW.
+    destruct (C R1 P1 NW HT) as [c1 [c2 [c3 [c4 c5]]]]. specialize (c4 eq_refl). destruct (B4 P1) as [t1 [t2 t3]].
+    cbn zeta. rewrite g3, g2, g4, rl, ra, !UF.
+    split; [exact c1|]. split; [pose proof (Upt_mono s _ _ NN); lia|].
+    assert (NB : now s2 <= due (t_timer1 s) + J).
+    { destruct (tid_eq_dec T_timer1 i) as [<-|Hne].
+      - cbn [get_tm] in N2. lia.
+      - rewrite <- (Te Hne). apply Ta. rewrite (Te Hne). exact t1. }
+    split.
+    + pose proof (Upt_mono s (now s2) (due (t_timer1 s) - T1_US + (T1_US + J)) ltac:(lia)).
+      pose proof (Upt_add_le s (due (t_timer1 s) - T1_US) (T1_US + J) 2 ltac:(lia)). lia.
+    + split; [|exact c5]. intros F. destruct (tid_eq_dec T_timer1 i) as [<-|Hne]; [discriminate F|]. rewrite (Te Hne). exact c4.
+Qed.
+
+Lemma ksim_fire i s fin : TR J s -> pick s fin = Some i -> KSim true s -> KSim true (fire i s).
+Proof. intros R P K. rewrite fire_eq. apply ksim_callback. eapply ksim_prefire; eauto. Qed.
+(* no timer is due up to fin: in particular timer1 is not, so fin is less than a period after the last tick *)
+Lemma ksim_done s fin : pick s fin = None -> KSim true s -> KSim true (if now s <? fin then set_now fin s else s).
+Proof.
+  intros P K. destruct (now s <? fin) eqn:E; auto. apply Z.ltb_lt in E. destruct K as [E0 [[B1 [B2 [B3 B4]]] C]].
+  assert (F : ktmo (set_now fin s) = ktmo s /\ actto (set_now fin s) = actto s /\ registered (set_now fin s) = registered s /\
+              has_rpc (set_now fin s) = has_rpc s /\ kenv (set_now fin s) = kenv s /\ kabs (set_now fin s) = kabs s /\
+              lastsent (set_now fin s) = lastsent s /\ lastresp (set_now fin s) = lastresp s /\
+              now (set_now fin s) = fin /\ boot (set_now fin s) = boot s /\ cycles0 (set_now fin s) = cycles0 s /\ t_timer1 (set_now fin s) = t_timer1 s)
+    by (repeat split; reflexivity).
+  generalize dependent (set_now fin s). intros s' [a1 [a2 [a3 [a4 [a5 [a6 [a7 [a8 [a9 [a10 [a11 a12]]]]]]]]]]].
+  assert (UF : forall t, Upt s' t = Upt s t) by (intros; apply Upt_frame; auto).
+  assert (NWL : nowrap s' -> nowrap s) by (apply nowrap_later; auto; lia).
+  pose proof T1_US_val as T1v.
+  assert (D : has_rpc s = true -> fin < due (t_timer1 s)) by (intros P1; destruct (B4 P1) as [t1 _]; apply (pick_none s fin P T_timer1 t1)).
+  split; [congruence|]. split.
+  - unfold KB. rewrite a4, a7, a9, a12, UF. split; [lia|]. split; [auto|]. split.
+    + intros NW. pose proof (B3 (NWL NW)). pose proof (Upt_mono s (now s) fin ltac:(lia)). lia.
+    + intros P1. destruct (B4 P1) as [t1 [t2 t3]]. specialize (D P1). split; [auto|]. lia.
+  - intros R1 P1 NW2 HT. rewrite a3 in R1. rewrite a4 in P1. rewrite a2 in HT. pose proof (NWL NW2) as NW.
+    destruct (C R1 P1 NW HT) as [c1 [c2 [c3 [c4 c5]]]]. specialize (D P1).
+    cbn zeta. rewrite a6, a5, a7, a8, a9, a12, a2, !UF.
+    split; [exact c1|]. split; [pose proof (Upt_mono s (now s) fin ltac:(lia)); lia|]. split; [|split; [exact c4|exact c5]].
+    specialize (c4 eq_refl).
+    pose proof (Upt_mono s fin (due (t_timer1 s) - T1_US + T1_US) ltac:(lia)).
+    pose proof (Upt_add_le s (due (t_timer1 s) - T1_US) T1_US 1 ltac:(lia)). lia.
+Qed.
+Lemma ksim_Advance fin s s' : Advance fin s s' -> All J s -> KSim true s -> KSim true s'.
+Proof.
+  induction 1; intros A K; auto.
+  - apply ksim_done; auto.
+  - apply IHAdvance; [eapply fire_all; eauto; apply HJ0|]. destruct A as [R _]. eapply ksim_fire; eauto.
 Qed.
 
 (* ---------- events, runs, boot ---------- *)
-Lemma kv_conncb s : kview_of (dev_step s ConnCb) = mkkv (ktmo s) (actto s) (registered s) true (kenv s) (kabs s) (lastsent s) (lastresp s).
+Lemma kv_conncb s : kview_of (dev_step s ConnCb) =
+  mkkv (ktmo s) (actto s) (registered s) true (kenv s) (kabs s) (lastsent s) (lastresp s) (now s) (boot s) (cycles0 s) (t_timer1 s).
 Proof.
   cbn [dev_step]. rewrite kv_emit. unfold connect_cb.
   assert (V1 : kview_of (set_stalled false (set_wbuf [] (set_conn (conn s + 1) (set_link L_LIVE s)))) = kview_of s) by reflexivity.
   generalize dependent (set_stalled false (set_wbuf [] (set_conn (conn s + 1) (set_link L_LIVE s)))). intros s1 V1.
   assert (V2 : kview_of (set_srpc (Some (mkrpc (conn s1) 0 [] [] empty_inb [] false None (now s1))) s1) =
-               mkkv (ktmo s) (actto s) (registered s) true (kenv s) (kabs s) (lastsent s) (lastresp s)).
-  { unfold kview_of in *. cbn [ktmo actto registered kenv kabs lastsent lastresp set_srpc has_rpc srpc]. inversion V1. reflexivity. }
+               mkkv (ktmo s) (actto s) (registered s) true (kenv s) (kabs s) (lastsent s) (lastresp s) (now s) (boot s) (cycles0 s) (t_timer1 s)).
+  { unfold kview_of in *. cbn [ktmo actto registered kenv kabs lastsent lastresp set_srpc has_rpc srpc now boot cycles0 t_timer1]. inversion V1. reflexivity. }
   generalize dependent (set_srpc (Some (mkrpc (conn s1) 0 [] [] empty_inb [] false None (now s1))) s1). intros s2 V2.
-  assert (V3 : kview_of (arm T_iter ITERATE_MS true s2) = mkkv (ktmo s) (actto s) (registered s) true (kenv s) (kabs s) (lastsent s) (lastresp s))
-    by (rewrite kv_arm; exact V2).
+  assert (V3 : kview_of (arm T_iter ITERATE_MS true s2) =
+               mkkv (ktmo s) (actto s) (registered s) true (kenv s) (kabs s) (lastsent s) (lastresp s) (now s) (boot s) (cycles0 s) (t_timer1 s))
+    by (rewrite kv_arm by discriminate; exact V2).
   generalize dependent (arm T_iter ITERATE_MS true s2). intros s3 V3.
   destruct (clrconn s3); exact V3.
 Qed.
@@ -306,24 +506,41 @@ Proof.
   assert (V2 : kview_of (set_recvbuf [] (set_espbuf [] (gpio_state_ipreceived (set_link L_IDLE (emit O_DISCD [now s1; conn s1; evi s1] s1))))) = kview_of s).
   { change (kview_of (set_recvbuf [] (set_espbuf [] ?x))) with (kview_of x). rewrite kv_gpio_ip. exact V1. }
   generalize dependent (set_recvbuf [] (set_espbuf [] (gpio_state_ipreceived (set_link L_IDLE (emit O_DISCD [now s1; conn s1; evi s1] s1))))). intros s2 V2.
-  destruct (started s2); [rewrite kv_arm, kv_disarm|]; exact V2.
+  destruct (started s2); [rewrite kv_arm, kv_disarm by discriminate|]; exact V2.
 Qed.
+
+Lemma kview_eq_fields s' a1 a2 a3 a4 a5 a6 a7 a8 a9 a10 a11 a12 : kview_of s' = mkkv a1 a2 a3 a4 a5 a6 a7 a8 a9 a10 a11 a12 ->
+  ktmo s' = a1 /\ actto s' = a2 /\ registered s' = a3 /\ has_rpc s' = a4 /\ kenv s' = a5 /\ kabs s' = a6 /\ lastsent s' = a7 /\
+  lastresp s' = a8 /\ now s' = a9 /\ boot s' = a10 /\ cycles0 s' = a11 /\ t_timer1 s' = a12.
+Proof. unfold kview_of. intros H. inversion H. repeat split; reflexivity. Qed.
 
 Section SimRun.
 Variables cs cc : bool.
-Lemma ksim_rstep s e s' : rstep s e s' -> Inv cs cc s -> KSim s -> KSim s'.
+Lemma ksim_conncb s : Inv cs cc s -> TR J s -> link s = L_PENDING -> KSim true s -> KSim true (dev_step s ConnCb).
 Proof.
-  intros H HI K. unfold rstep in H.
-  assert (K1 : KSim (set_evi (evi s + 1) s)) by (eapply KSim_view; [|exact K]; reflexivity).
+  intros HI R Hl [E [[B1 [B2 [B3 _]]] _]].
+  pose proof (i_pending _ _ _ HI Hl) as Hn. cbn in Hn. pose proof (i_none_reg _ _ _ HI Hn) as Hr. cbn in Hr.
+  pose proof (r_started _ _ R (r_pending _ _ R Hl)) as A1.
+  pose proof (r_tok _ _ R (t_timer1 s) (or_intror (or_introl eq_refl)) A1) as A2.
+  pose proof (r_ahead _ _ R (t_timer1 s) (or_intror eq_refl) A1) as A3. rewrite (r_t1p _ _ R A1) in A3.
+  destruct (kview_eq_fields _ _ _ _ _ _ _ _ _ _ _ _ _ (kv_conncb s)) as [a1 [a2 [a3 [a4 [a5 [a6 [a7 [a8 [a9 [a10 [a11 a12]]]]]]]]]]].
+  generalize dependent (dev_step s ConnCb). intros s' a1 a2 a3 a4 a5 a6 a7 a8 a9 a10 a11 a12.
+  split; [congruence|]. split.
+  - unfold KB, nowrap, nowrap_at, Upt, usec_at. rewrite a7, a9, a10, a11, a12. split; [auto|]. split; [auto|]. split; [exact B3|]. intros _. split; [exact A1|]. split; [exact A2|exact A3].
+  - intros R1. rewrite a3, Hr in R1. discriminate R1.
+Qed.
+Lemma ksim_rstep s e s' : rstep s e s' -> Full J cs cc s -> KSim true s -> KSim true s'.
+Proof.
+  intros H [HI A] K. unfold rstep in H.
+  assert (K1 : KSim true (set_evi (evi s + 1) s)) by (eapply KSim_view; [|exact K]; reflexivity).
+  assert (A1 : All J (set_evi (evi s + 1) s)) by (eapply All_TQ; [exact A|apply tq_set_evi]).
   assert (HI1 : Inv cs cc (set_evi (evi s + 1) s)) by (eapply Inv_core; [|eauto]; reflexivity).
-  generalize dependent (set_evi (evi s + 1) s). intros s1 H K1 HI1.
+  generalize dependent (set_evi (evi s + 1) s). intros s1 H K1 A1 HI1.
   destruct (halted s1); [subst; auto|]. destruct (env_allows s1 e) eqn:E; [|subst; auto].
   destruct e; cbn [dev_rstep] in H; try subst s'.
   - destruct (dt <? 0); [subst; auto|]. eapply ksim_Advance; eauto.
   - eapply KSim_view; [|exact K1]. reflexivity.
-  - cbn [env_allows] in E. apply Z.eqb_eq in E.
-    pose proof (i_pending _ _ _ HI1 E) as Hn. cbn in Hn. pose proof (i_none_reg _ _ _ HI1 Hn) as Hr. cbn in Hr.
-    destruct K1 as [T _]. unfold KSim. rewrite kv_conncb. split; [exact T|]. cbn. intros R. rewrite Hr in R. discriminate R.
+  - cbn [env_allows] in E. apply Z.eqb_eq in E. destruct A1 as [R _]. apply ksim_conncb; auto.
   - eapply KSim_view; [apply kv_disccb|auto].
   - cbn [dev_step]. apply ksim_recv_cb. eapply KSim_view; [apply kv_emit|auto].
   - eapply KSim_view; [|exact K1]. reflexivity.
@@ -332,56 +549,235 @@ Proof.
   - eapply KSim_view; [|exact K1]. reflexivity.
   - auto.
 Qed.
-Lemma ksim_boot b cyc d pay lt : KSim (boot_device b cyc d pay lt cs cc).
+Lemma boot_pre_koff b cyc d pay lt u :
+  let s2 := arm T_wd WATCHDOG_MS true (set_lastresp u (set_wstatus STATION_CONNECTING_ (emit O_WIFISTART [0] (init0 b cyc d pay lt cs cc)))) in
+  ktmo s2 = actto s2 /\ now s2 = 0 /\ lastsent s2 = 0 /\ has_rpc s2 = false /\ boot s2 = b /\ cycles0 s2 = cyc.
+Proof. cbn zeta. unfold arm. cbn. repeat split. Qed.
+Lemma ksim_boot b cyc d pay lt : KSim true (boot_device b cyc d pay lt cs cc).
 Proof.
-  unfold boot_device. eapply KSim_view; [apply kv_devconn_start|]. eapply KSim_view; [apply kv_arm|].
-  unfold KSim, KSimV, kview_of. cbn. split; [reflexivity|]. intros R; discriminate R.
+  unfold boot_device. change (now (init0 b cyc d pay lt cs cc)) with 0.
+  generalize (uptime (set_wstatus STATION_CONNECTING_ (emit O_WIFISTART [0] (init0 b cyc d pay lt cs cc)))). intros u.
+  destruct (boot_pre_koff b cyc d pay lt u) as [f1 [f2 [f3 [f4 [f5 f6]]]]]. cbn zeta in *.
+  generalize dependent (arm T_wd WATCHDOG_MS true (set_lastresp u (set_wstatus STATION_CONNECTING_ (emit O_WIFISTART [0] (init0 b cyc d pay lt cs cc))))).
+  intros s2 f1 f2 f3 f4 f5 f6.
+  apply (KSim_off true true s2); [rewrite koff_start; unfold koff_of; rewrite f4; reflexivity|].
+  split; [exact f1|]. split.
+  - unfold KB. rewrite f2, f3, f4. split; [lia|]. split; [lia|]. split; [|discriminate].
+    intros [C0 [B0 _]]. rewrite Upt_eq. apply Z.div_pos; [|lia]. apply usec_nonneg; [exact C0|lia].
+  - intros _ P. rewrite f4 in P. discriminate P.
 Qed.
-Lemma ksim_RRun s evs s' : sites_ok CallSites = true -> RRun s evs s' -> Inv cs cc s -> KSim s -> KSim s'.
+Lemma ksim_RRun s evs s' : sites_ok CallSites = true -> RRun s evs s' -> Full J cs cc s -> KSim true s -> KSim true s'.
 Proof.
-  intros HS H. induction H; auto. intros HI K. apply IHRRun; [eapply rstep_inv; eauto|eapply ksim_rstep; eauto].
+  intros HS H. induction H; auto. intros F K. apply IHRRun; [eapply rstep_full; eauto; apply HJ0|eapply ksim_rstep; eauto].
 Qed.
-Theorem ksim_reachable J s : sites_ok CallSites = true -> rreachable cs cc J s -> KSim s.
+Theorem ksim_reachable s : sites_ok CallSites = true -> rreachable cs cc J s -> KSim true s.
 Proof.
-  intros HS [b [cyc [d [pay [lt [evs [_ H]]]]]]]. eapply ksim_RRun; eauto; [apply boot_inv|apply ksim_boot].
+  intros HS [b [cyc [d [pay [lt [evs [HL H]]]]]]]. eapply ksim_RRun; eauto; [|apply ksim_boot].
+  split; [apply boot_inv|apply boot_all; auto; apply HJ0].
 Qed.
 
-(* C05_keepalive on the automaton that is compared with the implementation: in every reachable registered state whose
-   current episode (since the registration was accepted / the timeout granted) satisfied the environment conditions,
-   10 <= T <= 50: the abstract invariant holds for the real last_sent / last_response, the device has not decided to
-   reconnect in this episode, and neither the next timer1 tick nor a watchdog tick before it reconnects / restarts. *)
-Theorem keepalive_automaton_thm J s : sites_ok CallSites = true -> rreachable cs cc J s ->
-  is_registered s = true -> kenv s = true -> 10 <= actto s <= 50 ->
-  let T := actto s in let k := kabs s in
+(* C05_keepalive on the automaton that is compared with the implementation.  For every reachable state (any history of
+   events and timer firings, lateness < 1 s) that is registered, whose uptime seconds fit 32 bits, with KA_MIN = 5 <= T, and whose
+   current episode (since the registration was accepted / the timeout granted) met the EXTERNAL conditions only
+   (kenv: H_fresh at the start of the episode, then H_link, H_prompt, H_slot at each event -- see kenv_reset / kenv_event):
+   the abstract state is in lockstep with the real clock and the real last_sent / last_response, the invariant holds, the
+   device has not decided to reconnect, the idle times seen from the CURRENT uptime second are at most T + 2, the next
+   timer1 tick does not reconnect, and (T <= KA_WD_MAX = 58) a watchdog tick now neither restarts nor reconnects.
+   What kder_ok stood for (time monotone, 32-bit seconds, a tick at least every other second) is derived, not assumed. *)
+Theorem keepalive_automaton_thm s : sites_ok CallSites = true -> rreachable cs cc J s ->
+  is_registered s = true -> nowrap s -> KA_MIN <= actto s <= 4294966000 -> kenv s = true ->
+  let T := actto s in let k := kabs s in let up := Upt s (now s) in
   KInv T k /\ k_ls k = lastsent s /\ k_lr k = lastresp s /\ k_bad k = false /\
-  k_cur k - lastsent s <= T /\ k_cur k - lastresp s <= T + 2 /\
-  (forall slot, kenv_ok T k (Tick (uptime s) slot) = true -> t1_decide (uptime s) (lastsent s) (lastresp s) T <> T1_reconnect) /\
-  (forall up nw, lastresp s <= up -> up <= k_lt k + 2 -> up < 4294967296 -> wd_decide up (lastresp s) T nw = WD_none).
+  uptime s = up /\ k_lt k <= k_cur k /\ k_cur k <= up /\ up <= k_lt k + 2 /\
+  up - lastsent s <= T + 2 /\ up - lastresp s <= T + 2 /\
+  (forall slot, kder_ok k (Tick (uptime s) slot) = true) /\
+  (forall slot, kext_ok T k (Tick (uptime s) slot) = true -> t1_decide (uptime s) (lastsent s) (lastresp s) T <> T1_reconnect) /\
+  (T <= KA_WD_MAX -> forall nw, wd_decide (uptime s) (lastresp s) T nw = WD_none).
 Proof.
-  intros HS HR Reg Env HT. cbn zeta. destruct (ksim_reachable J s HS HR) as [Tm H].
-  apply is_registered_iff in Reg. destruct Reg as [R1 N1].
-  assert (P : has_rpc s = true) by (unfold has_rpc; destruct (srpc s); auto; contradiction).
-  destruct (H R1 P Env HT) as [KI [L1 L2]]. cbn in KI, L1, L2.
-  destruct (KInv_bounds _ _ HT KI) as [B0 [B1 [B2 B3]]].
-  split; auto. split; auto. split; auto. split; auto. rewrite <- L1, <- L2. split; auto. split; auto. split.
-  - intros slot E D. pose proof (kstep_inv _ _ _ HT KI E) as KI'. pose proof (ki_bad _ _ KI') as Bad.
+  intros HS HR Reg NW HT Env. cbn zeta. destruct (ksim_reachable s HS HR) as [Tm [KBs H]].
+  destruct (rreachable_full J HJ0 cs cc s HS HR) as [_ [R _]].
+  apply is_registered_iff in Reg. destruct Reg as [R1 N1]. apply has_rpc_iff in N1.
+  destruct (H R1 N1 NW HT) as [c1 [c2 [c3 [_ c5]]]]. destruct (c5 Env) as [KI [L1 L2]].
+  destruct (KInv_bounds_wide _ _ HT KI) as [B0 [B1 [B2 B3]]].
+  pose proof (uptime_nowrap s NW (r_now _ _ R)) as UU. pose proof (r_lr _ _ R NW) as LR.
+  assert (KD : forall slot, kder_ok (kabs s) (Tick (uptime s) slot) = true).
+  { intros slot. unfold kder_ok. cbn [ktime]. rewrite UU. destruct NW as [_ [_ NWb]].
+    repeat (apply andb_true_iff; split); [apply Z.leb_le|apply Z.ltb_lt|apply Z.leb_le]; auto. }
+  split; auto. split; auto. split; auto. split; auto. split; auto. split; auto. split; auto. split; auto.
+  rewrite <- L1, <- L2. split; [lia|]. split; [lia|]. split; [exact KD|]. split.
+  - intros slot E D. assert (E' : kenv_ok (actto s) (kabs s) (Tick (uptime s) slot) = true) by (unfold kenv_ok; rewrite KD, E; reflexivity).
+    pose proof (kstep_inv _ _ _ HT KI E') as KI'. pose proof (ki_bad _ _ KI') as Bad.
     cbn [kstep] in Bad. rewrite D in Bad. cbn in Bad. discriminate Bad.
-  - exact B3.
+  - intros T50 nw. destruct (KInv_bounds (actto s) (kabs s) ltac:(lia) KI) as [_ [_ [_ W]]].
+    rewrite <- L2 in LR. apply W; rewrite <- ?UU; try lia. rewrite UU. destruct NW as [_ [_ NWb]]. exact NWb.
 Qed.
 End SimRun.
+End Sim.
 
-(* ---------- the hypotheses of the end-to-end theorems are satisfiable (the run of C05_bounds_tight) ---------- *)
-Definition e2e_s0 : st :=
-  run_from (boot_device 999999 0 ESP_ARG (zeros (REG_BASE_SIZE + REG_CHANNEL_SIZE)) [] true false)
-           [Adv 300000; Wifi STATION_GOT_IP_; Adv 300000; ConnCb; Adv 400001; Recv (regok_frame 10)].
-Definition e2e_s1 : st := run_from e2e_s0 [Adv 25000000].
-Lemma e2e_example :
-  rreachable true false 0 e2e_s0 /\ RRun e2e_s0 [Adv 25000000] e2e_s1 /\ nresp e2e_s1 = nresp e2e_s0 /\
-  cycles0 e2e_s0 = 0 /\ 0 <= boot e2e_s0 /\ boot e2e_s0 + now e2e_s1 < 4294967296 /\ lastresp e2e_s0 = Upt e2e_s0 1000001 /\
-  is_registered e2e_s0 = true /\ armed (t_stop e2e_s0) = false /\ actto e2e_s0 = 10 /\ halted e2e_s0 = false /\
-  1000001 + (actto e2e_s0 + PING_RECONNECT_PLUS) * 1000000 + T1_US + 0 <= now e2e_s1.
+(* the accumulated bit kenv is exactly: H_fresh when the episode starts, and kext_ok (external conditions only) per event *)
+Lemma kenv_reset s : kenv (k_reset s) = (uptime s - lastsent s <=? actto s - 3). Proof. reflexivity. Qed.
+Lemma kenv_event e s : kenv (k_event e s) = kenv s && kext_ok (ktmo s) (kabs s) e. Proof. reflexivity. Qed.
+
+(* ---------- the hypotheses are satisfiable on long concrete histories ---------- *)
+(* 120 s after the registration was accepted, the server answering every ping after 50 ms (23 pings, 24 calls received):
+   every hypothesis of keepalive_automaton_thm holds at the end, in particular the accumulated external conditions. *)
+Definition ka_hist (b cyc dt : Z) : st :=
+  run_from (boot_device b cyc ESP_ARG (zeros (REG_BASE_SIZE + REG_CHANNEL_SIZE)) [] true false)
+           [Server 50000; Adv 300000; Wifi STATION_GOT_IP_; Adv 300000; ConnCb; Adv 400001; Recv (regok_frame 10); Adv dt].
+Lemma ka_history_example : let s := ka_hist 999999 0 120000000 in
+  rreachable true false 0 s /\ is_registered s = true /\ nowrap s /\ actto s = 10 /\ kenv s = true /\ nresp s = 24 /\ now s = 121000001.
 Proof.
-  split; [unfold e2e_s0; apply run_rreachable; [constructor|vm_compute; reflexivity]|].
+  cbn zeta. split; [unfold ka_hist; apply run_rreachable; [constructor|vm_compute; reflexivity]|].
+  unfold nowrap, nowrap_at. vm_compute. repeat split; congruence.
+Qed.
+(* the same history on an aged device whose 32-bit microsecond counter wraps 30 s after boot, having wrapped 7 times before *)
+Lemma ka_history_wrap_example : let s := ka_hist (4294967296 - 30000000) 7 120000000 in
+  rreachable true false 0 s /\ is_registered s = true /\ nowrap s /\ actto s = 10 /\ kenv s = true /\ nresp s = 24 /\
+  (boot s + now s) / 4294967296 = 1 /\ uptime s = 34450.
+Proof.
+  cbn zeta. split; [unfold ka_hist; apply run_rreachable; [constructor|vm_compute; reflexivity]|].
+  unfold nowrap, nowrap_at. vm_compute. repeat split; congruence.
+Qed.
+
+(* the hypotheses of the end-to-end silent-server theorems (the run of C05_bounds_tight), without and with a counter wrap
+   inside the silence *)
+Definition e2e_s0 (b cyc : Z) : st :=
+  run_from (boot_device b cyc ESP_ARG (zeros (REG_BASE_SIZE + REG_CHANNEL_SIZE)) [] true false)
+           [Adv 300000; Wifi STATION_GOT_IP_; Adv 300000; ConnCb; Adv 400001; Recv (regok_frame 10)].
+Definition e2e_s1 (b cyc dt : Z) : st := run_from (e2e_s0 b cyc) [Adv dt].
+Lemma e2e_example : let s0 := e2e_s0 999999 0 in let s1 := e2e_s1 999999 0 25000000 in
+  rreachable true false 0 s0 /\ RRun s0 [Adv 25000000] s1 /\ nresp s1 = nresp s0 /\
+  0 <= cycles0 s0 /\ 0 <= boot s0 /\ Upt s0 (now s1) < 4294967296 /\ lastresp s0 = Upt s0 1000001 /\
+  is_registered s0 = true /\ armed (t_stop s0) = false /\ actto s0 = 10 /\ halted s0 = false /\ wraps s0 1000001 (now s1) = 0 /\
+  1000001 + (actto s0 + PING_RECONNECT_PLUS) * 1000000 + T1_US + 0 + wraps s0 1000001 (now s1) <= now s1.
+Proof.
+  cbn zeta. split; [unfold e2e_s0; apply run_rreachable; [constructor|vm_compute; reflexivity]|].
   split; [unfold e2e_s1; apply run_refines; vm_compute; reflexivity|].
-  vm_compute. repeat split; congruence.
+  unfold wraps. vm_compute. repeat split; congruence.
+Qed.
+Lemma e2e_wrap_example : let s0 := e2e_s0 (4294967296 - 10000000) 3 in let s1 := e2e_s1 (4294967296 - 10000000) 3 25000000 in
+  rreachable true false 0 s0 /\ RRun s0 [Adv 25000000] s1 /\ nresp s1 = nresp s0 /\
+  0 <= cycles0 s0 /\ 0 <= boot s0 /\ Upt s0 (now s1) < 4294967296 /\ lastresp s0 = Upt s0 1000001 /\
+  is_registered s0 = true /\ armed (t_stop s0) = false /\ actto s0 = 10 /\ halted s0 = false /\ wraps s0 1000001 (now s1) = 1 /\
+  1000001 + (actto s0 + PING_RECONNECT_PLUS) * 1000000 + T1_US + 0 + wraps s0 1000001 (now s1) <= now s1.
+Proof.
+  cbn zeta. split; [unfold e2e_s0; apply run_rreachable; [constructor|vm_compute; reflexivity]|].
+  split; [unfold e2e_s1; apply run_refines; vm_compute; reflexivity|].
+  unfold wraps. vm_compute. repeat split; congruence.
+Qed.
+
+(* ---------- activity-timeout negotiation ---------- *)
+(* SUPLA_SDC_CALL_SET_ACTIVITY_TIMEOUT_RESULT {activity_timeout, min, max}: the device takes the first byte as it is -- no
+   clamp, the min / max bytes are not read (supla_esp_channel_set_activity_timeout_result) -- and a new episode starts *)
+Lemma sat_result_handler f s :
+  le32 f OFF_CALL_ID = SRV_SET_ACTIVITY_TIMEOUT_RESULT -> le32 f OFF_DATA_SIZE = SZ_SET_ACTIVITY_TIMEOUT_RESULT ->
+  handler f s = k_reset (set_actto (nthz (drop OFF_DATA f) OFF_SAT_RESULT_TIMEOUT) (handler_pre s)).
+Proof. intros C D. rewrite handler_eq. unfold handler_body. rewrite C, D. reflexivity. Qed.
+Theorem sat_result_sets_timeout_thm f s : let v := nthz (drop OFF_DATA f) OFF_SAT_RESULT_TIMEOUT in
+  le32 f OFF_CALL_ID = SRV_SET_ACTIVITY_TIMEOUT_RESULT -> le32 f OFF_DATA_SIZE = SZ_SET_ACTIVITY_TIMEOUT_RESULT ->
+  let s' := handler f s in
+  actto s' = v /\ ktmo s' = v /\ registered s' = registered s /\ srpc s' = srpc s /\ lastsent s' = lastsent s /\ lastresp s' = uptime s /\
+  uptime s' = uptime s /\ t_timer1 s' = t_timer1 s /\ outs s' = outs s /\
+  kabs s' = kinit (uptime s) (lastsent s) /\ kenv s' = (uptime s - lastsent s <=? v - 3).
+Proof. intros v C D. cbn zeta. rewrite (sat_result_handler f s C D). repeat split; reflexivity. Qed.
+(* the register result: server_activity_timeout := activity_timeout byte, registered := 1, a new episode *)
+Lemma register_result_view tmo s :
+  kview_of (on_register_result RESULTCODE_TRUE tmo s) = kview_of (k_reset (set_registered 1 (set_actto tmo s))).
+Proof.
+  unfold on_register_result. rewrite Z.eqb_refl.
+  generalize (k_reset (set_registered 1 (set_actto tmo s))). intros s1.
+  rewrite kv_arm, kv_disarm by discriminate.
+  assert (V2 : kview_of (match srpc s1 with
+                     | Some p => set_srpc (Some (mkrpc (sid p) (rr_last p) (oq p) (obuf p) (ibuf p) (hist p) true (refused_at p) (created_at p))) s1
+                     | None => s1 end) = kview_of s1)
+    by (destruct (srpc s1) as [p|] eqn:E; auto; apply (kv_set_rpc_some s1 p); auto).
+  generalize dependent (match srpc s1 with
+                     | Some p => set_srpc (Some (mkrpc (sid p) (rr_last p) (oq p) (obuf p) (ibuf p) (hist p) true (refused_at p) (created_at p))) s1
+                     | None => s1 end). intros s2 V2.
+  destruct (tmo =? ACTIVITY_TIMEOUT_DEFAULT); [|rewrite kv_async_call]; rewrite kv_gpio_conn; exact V2.
+Qed.
+Theorem register_result_sets_timeout_thm tmo s : let s' := on_register_result RESULTCODE_TRUE tmo s in
+  actto s' = tmo /\ ktmo s' = tmo /\ registered s' = 1 /\ lastsent s' = lastsent s /\ lastresp s' = lastresp s /\
+  kabs s' = kinit (uptime s) (lastsent s) /\ kenv s' = (uptime s - lastsent s <=? tmo - 3).
+Proof.
+  cbn zeta. destruct (kview_fields _ _ (register_result_view tmo s)) as [a1 [a2 [a3 [a4 [a5 [a6 [a7 [a8 [a9 [a10 [a11 a12]]]]]]]]]]].
+  rewrite a1, a2, a3, a5, a6, a7, a8. repeat split; reflexivity.
+Qed.
+
+Section Negotiation.
+Variable J : Z.
+Hypothesis HJ : 0 <= J < 1000000.
+Variables cs cc : bool.
+(* After a SET_ACTIVITY_TIMEOUT_RESULT carrying ANY value v is handled in a reachable, registered state, the keep-alive runs
+   with v: the abstract semantics is restarted with tmo = v in lockstep with the device (KSim), and for KA_MIN = 5 <= v, when the
+   device has sent something within the last v - 3 s (H_fresh), the invariant holds from here on for T = v; the next timer1
+   decisions are the window rule for v: ping iff an idle time is in [v - 5, v].  Every later state of the history is covered by
+   keepalive_automaton_thm with T = actto = v (until the next negotiation).  v = 0 and 0 < v < 5: t1_decide_zero / _small. *)
+Theorem timeout_negotiated_thm s f : let v := nthz (drop OFF_DATA f) OFF_SAT_RESULT_TIMEOUT in
+  sites_ok CallSites = true -> rreachable cs cc J s -> is_registered s = true -> nowrap s ->
+  le32 f OFF_CALL_ID = SRV_SET_ACTIVITY_TIMEOUT_RESULT -> le32 f OFF_DATA_SIZE = SZ_SET_ACTIVITY_TIMEOUT_RESULT ->
+  let s' := handler f s in
+  KSim J true s' /\ actto s' = v /\ ktmo s' = v /\ is_registered s' = true /\
+  (KA_MIN <= v <= 4294966000 -> uptime s - lastsent s <= v - 3 ->
+     kenv s' = true /\ KInv v (kabs s') /\ k_ls (kabs s') = lastsent s' /\ k_lr (kabs s') = lastresp s' /\
+     forall up, lastresp s' <= up -> up < 4294967296 -> up - lastresp s' <= v ->
+       t1_decide up (lastsent s') (lastresp s') v =
+       if ((v - PING_WINDOW_MINUS <=? up - lastsent s') && (up - lastsent s' <=? v)) ||
+          ((v - PING_WINDOW_MINUS <=? up - lastresp s') && (up - lastresp s' <=? v)) then T1_ping else T1_none).
+Proof.
+  intros v HS HR Reg NW C D. cbn zeta.
+  pose proof (ksim_handler J HJ true f s (ksim_reachable J HJ cs cc s HS HR)) as K.
+  destruct (sat_result_sets_timeout_thm f s C D) as [a1 [a2 [a3 [a4 [a5 [a6 [a7 [a8 [_ [a9 a10]]]]]]]]]]. fold v in a1, a2, a10.
+  destruct (rreachable_full J (HJ0 J HJ) cs cc s HS HR) as [_ [R _]].
+  assert (Reg' : is_registered (handler f s) = true).
+  { apply is_registered_iff in Reg. apply is_registered_iff. rewrite a3, a4. exact Reg. }
+  generalize dependent (handler f s). intros s' K a1 a2 a3 a4 a5 a6 a7 a8 a9 a10 Reg'.
+  split; [exact K|]. split; [exact a1|]. split; [exact a2|]. split; [exact Reg'|].
+  intros HT HF. pose proof (uptime_nowrap s NW (r_now _ _ R)) as UU. pose proof (r_lr _ _ R NW) as LR.
+  destruct K as [_ [[B1 [B2 [B3 _]]] _]].
+  assert (E : kenv s' = true) by (rewrite a10; apply Z.leb_le; exact HF).
+  assert (L0 : 0 <= lastsent s <= uptime s).
+  { pose proof (ksim_reachable J HJ cs cc s HS HR) as [_ [[_ [b2 [b3 _]]] _]]. specialize (b3 NW). lia. }
+  assert (KI : KInv v (kabs s')) by (rewrite a9; apply kinit_inv; [lia|exact L0|rewrite UU; apply NW|exact HF]).
+  split; [exact E|]. split; [exact KI|]. rewrite a9, a5, a6. cbn [kinit k_ls k_lr]. split; [reflexivity|]. split; [reflexivity|].
+  intros up H1 H2 H3. apply t1_decide_spec; auto; lia.
+Qed.
+End Negotiation.
+
+(* a negotiated history: registered with timeout 30, the device asks for 10, the server grants v (min / max bytes 77 and 3 are
+   ignored), then answers every ping after 50 ms *)
+Definition satres_frame (v mn mx : Z) : list Z := encode (SRV_SET_ACTIVITY_TIMEOUT_RESULT, 2, [v; mn; mx]).
+Definition neg_hist (t0 v dt : Z) : st :=
+  run_from (boot_device 999999 0 ESP_ARG (zeros (REG_BASE_SIZE + REG_CHANNEL_SIZE)) [] true false)
+           [Server 50000; Adv 300000; Wifi STATION_GOT_IP_; Adv 300000; ConnCb; Adv 400001; Recv (regok_frame t0); Adv 300000;
+            Recv (satres_frame v 77 3); Adv dt].
+(* v = 25: two minutes later still registered, all hypotheses hold, 5 pings were answered (one about every 20 s) *)
+Lemma negotiation_example : let s := neg_hist 30 25 120000000 in
+  rreachable true false 0 s /\ is_registered s = true /\ nowrap s /\ actto s = 25 /\ ktmo s = 25 /\ kenv s = true /\ nresp s = 7.
+Proof.
+  cbn zeta. split; [unfold neg_hist; apply run_rreachable; [constructor|vm_compute; reflexivity]|].
+  unfold nowrap, nowrap_at. vm_compute. repeat split; congruence.
+Qed.
+(* v = 5, the smallest timeout with a ping window: a ping every second, still registered after a minute *)
+Lemma negotiation_min_example : let s := neg_hist 30 5 60000000 in
+  rreachable true false 0 s /\ is_registered s = true /\ actto s = 5 /\ kenv s = true /\ nresp s = 62.
+Proof.
+  cbn zeta. split; [unfold neg_hist; apply run_rreachable; [constructor|vm_compute; reflexivity]|]. vm_compute. repeat split; congruence.
+Qed.
+(* v = 3 (below the window): no ping is ever sent, the device drops the healthy connection after v + 10 s *)
+Lemma negotiation_small_example : let s := neg_hist 30 3 20000000 in
+  rreachable true false 0 s /\ nresp s = 2 /\ disc_at 15000000 s.
+Proof.
+  cbn zeta. split; [unfold neg_hist; apply run_rreachable; [constructor|vm_compute; reflexivity]|]. split; [vm_compute; reflexivity|].
+  unfold disc_at. vm_compute. tauto.
+Qed.
+(* REFUTED for large timeouts: the watchdog clause cannot be extended beyond KA_WD_MAX.  With v = 120 granted and a server that
+   would answer every ping after 50 ms (all external conditions hold: kenv = true), the first ping is due after 115 idle
+   seconds, but the watchdog restarts the device after 61 s without a received call. *)
+Lemma watchdog_large_timeout_refuted : let s := neg_hist 30 120 70000000 in
+  rreachable true false 0 s /\ actto s = 120 /\ kenv s = true /\ nresp s = 2 /\ halted s = true /\ exists t, t <= 63000000 /\ restart_at t s.
+Proof.
+  cbn zeta. split; [unfold neg_hist; apply run_rreachable; [constructor|vm_compute; reflexivity]|].
+  split; [vm_compute; reflexivity|]. split; [vm_compute; reflexivity|]. split; [vm_compute; reflexivity|]. split; [vm_compute; reflexivity|].
+  exists 63000000. split; [lia|]. unfold restart_at. vm_compute. tauto.
 Qed.
